@@ -1,6 +1,7 @@
 import Driver.Ops.C07
 import LentilVerif.Model.PropSeg
 import LentilVerif.Model.PlaneTilt
+import LentilVerif.Model.ChainExt
 /-! Driver operations for C03: run a chain of planes (as `c07.run`, complex doubles) and propagate the result with the
 model of `propagate_dft` (tilt-free fields, no output mask); report the propagated `field` and `intensity`. -/
 open Lean Lentil Drv
@@ -120,6 +121,12 @@ def runTiltChain (j : Json) : R Json := do
 def handle (op : String) (j : Json) : Option (R Json) :=
   match op with
   | "c03.chain" => some (runTiltChain j)
+  | "c03.extok" => some do
+      -- the input-level hypothesis `ExtOK` of the end-to-end theorems (`extOKb_iff`), evaluated on the planes' bounding boxes
+      let N := Ops.C07.numCF
+      let ps ← (← getArr j "planes").mapM (Ops.C07.planeOf N)
+      let boxes := ps.toList.map fun pr => pr.p.boxes
+      pure (okJ [("extok", Json.bool (freshExtOKb boxes))])
   | "c03.run" => some do
       let N := Ops.C07.numCF
       match ← Ops.C07.runChain N j with
